@@ -4,6 +4,7 @@ package main
 // its decision trail; the solver's push/pop stack mirrors the trail.
 
 import (
+	"encoding/json"
 	"fmt"
 	"sort"
 	"time"
@@ -38,6 +39,7 @@ type violation struct {
 	Vector []replayItem `json:"vector"`
 	Trail  []int        `json:"trail"`
 	Known  string       `json:"known,omitempty"`
+	Alt    int          `json:"alt,omitempty"` // k-th alternative counterexample of this label
 	Stack  []string     `json:"stack,omitempty"`
 	extras map[string]uint64
 }
@@ -79,7 +81,8 @@ type Explorer struct {
 	AssertLabels map[string]int
 	Covers       map[string]int
 	Violations   []violation
-	violSeen     map[string]bool
+	violSeen     map[string]int
+	violVecs     map[string]bool
 	Inconclusive []string
 	Incomplete   string
 	StepsTotal   int64
@@ -455,21 +458,31 @@ func (e *Explorer) recordViolation(label, kind, detail, known string) {
 func (e *Explorer) recordViolationKeyed(label, kind, detail, known, extra string) {
 	key := kind + "/" + label + "/" + known + "/" + extra
 	if e.violSeen == nil {
-		e.violSeen = map[string]bool{}
+		e.violSeen = map[string]int{}
+		e.violVecs = map[string]bool{}
+	}
+	// Up to maxAlternatives counterexamples with different inputs are kept per label: a
+	// counterexample that depends on a goroutine schedule the native run does not follow
+	// may fail to replay while another one (for other inputs) does.
+	const maxAlternatives = 4
+	if e.violSeen[key] >= maxAlternatives {
+		return
 	}
 	v := violation{Label: label, Kind: kind, Detail: detail, Known: known}
 	v.Vector = e.modelVector()
+	sig, _ := json.Marshal(v.Vector)
+	if e.violVecs[key+"#"+string(sig)] {
+		return
+	}
+	e.violVecs[key+"#"+string(sig)] = true
 	for _, d := range e.trail[:e.pos] {
 		v.Trail = append(v.Trail, d.chosen)
 	}
 	if e.it != nil {
 		v.Stack = e.it.stackTrace()
 	}
-	if e.violSeen[key] {
-		// keep only a count for repeated labels
-		return
-	}
-	e.violSeen[key] = true
+	v.Alt = e.violSeen[key]
+	e.violSeen[key]++
 	e.Violations = append(e.Violations, v)
 }
 
